@@ -26,10 +26,12 @@ Section AnyState.
     intros Hp Hid Hbig Hc Hf.
     assert (Hsp : should_put (ws_opts s) (ws_idx s) c p = Err ECidTooLarge).
     { unfold should_put. rewrite Hid. replace (w_maxcid (ws_opts s) <? blen c) with true by lia. reflexivity. }
-    destruct f as [|r]; cbn [impl_step].
+    destruct f as [|r|]; cbn [impl_step].
     - unfold bs_put_many. rewrite Hc, Hf. cbn [put_many_loop]. rewrite Hp.
       rewrite (put_one_unchanged s c d p _ Hsp) by discriminate. reflexivity.
     - unfold st_put. rewrite Hp, Hc, Hf. rewrite (put_one_unchanged s c d p _ Hsp) by discriminate. reflexivity.
+    - unfold bs_put_many. rewrite Hc, Hf. cbn [put_many_loop]. rewrite Hp.
+      rewrite (put_one_unchanged s c d p _ Hsp) by discriminate. reflexivity.
   Qed.
 
   (* Finalize and Discard close the store, whatever state it was in *)
@@ -50,20 +52,24 @@ Section AnyState.
     - destruct H as [H|H]; [discriminate|]. rewrite H. cbn [negb]. rewrite andb_false_r. reflexivity.
   Qed.
 
-  Lemma finalize_closes f s : ws_closed (fst (impl_step hdrdec f s OpFinalize)) = true.
+  Lemma bs_finalize_closes s : ws_closed (fst (bs_finalize s)) = true.
   Proof.
-    destruct f as [|r]; cbn [impl_step].
-    - unfold bs_finalize. pose proof (bs_finalize_ro_flags s) as (H1 & H2).
-      destruct (bs_finalize_ro s) as [s1 r1]. cbn [fst] in H1, H2.
-      pose proof (bs_close_closed s1) as H3. destruct (bs_close s1) as [s2 r2]. cbn [fst] in *.
-      apply H3. destruct (ws_closed s) eqn:Ec; [left; congruence|right; apply H2; reflexivity].
-    - unfold st_finalize. destruct (ws_finalized s) eqn:Ef; [reflexivity|]. rewrite <- Ef. destruct (ws_closed s) eqn:Ec; [exact Ec|].
-      destruct (w_v1 (ws_opts s)); [reflexivity|].
-      pose proof (store_finalize_flags (set_flags s true (ws_finalized s))) as (H1 & _). exact H1.
+    unfold bs_finalize. pose proof (bs_finalize_ro_flags s) as (H1 & H2).
+    destruct (bs_finalize_ro s) as [s1 r1]. cbn [fst] in H1, H2.
+    pose proof (bs_close_closed s1) as H3. destruct (bs_close s1) as [s2 r2]. cbn [fst] in *.
+    apply H3. destruct (ws_closed s) eqn:Ec; [left; congruence|right; apply H2; reflexivity].
   Qed.
 
-  Lemma discard_closes s : ws_closed (fst (impl_step hdrdec FBs s OpDiscard)) = true.
-  Proof. reflexivity. Qed.
+  Lemma finalize_closes f s : ws_closed (fst (impl_step hdrdec f s OpFinalize)) = true.
+  Proof.
+    destruct f as [|r|]; cbn [impl_step]; try apply bs_finalize_closes.
+    unfold st_finalize. destruct (ws_finalized s) eqn:Ef; [reflexivity|]. rewrite <- Ef. destruct (ws_closed s) eqn:Ec; [exact Ec|].
+    destruct (w_v1 (ws_opts s)); [reflexivity|].
+    pose proof (store_finalize_flags (set_flags s true (ws_finalized s))) as (H1 & _). exact H1.
+  Qed.
+
+  Lemma discard_closes f s : is_bs f = true -> ws_closed (fst (impl_step hdrdec f s OpDiscard)) = true.
+  Proof. destruct f; [reflexivity|discriminate|reflexivity]. Qed.
 
   (* on a closed store every write and every non-identity lookup is an error and nothing changes *)
   Lemma after_close_errors f s c d p :
@@ -71,50 +77,55 @@ Section AnyState.
     impl_step hdrdec f s (OpPut c d) = (s, OErr EClosed) /\
     impl_step hdrdec f s (OpHas c) = (s, OErr EClosed) /\
     (is_identity p = false -> f <> FSt false -> impl_step hdrdec f s (OpGet c) = (s, OErr EClosed)) /\
-    (f = FBs -> forall l, impl_step hdrdec f s (OpPutMany l) = (s, OErr EClosed)) /\
-    (f = FBs -> is_identity p = false -> impl_step hdrdec f s (OpGetSize c) = (s, OErr EClosed)) /\
-    (f = FBs -> impl_step hdrdec f s OpKeys = (s, OErr EClosed)).
+    (is_bs f = true -> forall l, impl_step hdrdec f s (OpPutMany l) = (s, OErr EClosed)) /\
+    (is_bs f = true -> is_identity p = false -> impl_step hdrdec f s (OpGetSize c) = (s, OErr EClosed)) /\
+    (is_bs f = true -> impl_step hdrdec f s OpKeys = (s, OErr EClosed)).
   Proof.
-    intros Hc Hp. destruct f as [|r]; cbn [impl_step].
+    intros Hc Hp. destruct f as [|r|]; cbn [impl_step].
     - unfold bs_put_many, bs_has, bs_get, bs_getsize, bs_allkeys. rewrite Hc, Hp.
       repeat split; try reflexivity.
       + intros Hid _. rewrite Hid, andb_false_r. reflexivity.
       + intros _ Hid. rewrite Hid. reflexivity.
     - unfold st_put, st_has, st_get. rewrite Hc, Hp. repeat split; try reflexivity; try discriminate.
       intros Hid Hr. destruct r; [|congruence]. cbn [negb]. rewrite Hid, andb_false_r. reflexivity.
+    - unfold bs_put_many, bs_has, bs_get, bs_getsize, bs_allkeys. rewrite Hc, Hp.
+      repeat split; try reflexivity.
+      + intros Hid _. rewrite Hid, andb_false_r. reflexivity.
+      + intros _ Hid. rewrite Hid. reflexivity.
   Qed.
 
-  (* a frozen store: closed, or (blockstore) finalized *)
+  (* a frozen store: closed, or (either blockstore variant) finalized *)
   Definition frozen (f : front) (s : wstate) : Prop :=
-    ws_closed s = true \/ (f = FBs /\ ws_finalized s = true).
+    ws_closed s = true \/ (is_bs f = true /\ ws_finalized s = true).
 
   Lemma frozen_step f s op : frozen f s ->
     ws_file (fst (impl_step hdrdec f s op)) = ws_file s /\ frozen f (fst (impl_step hdrdec f s op)).
   Proof.
-    intros Hfr. destruct f as [|r].
-    - (* blockstore *)
+    intros Hfr. destruct (is_bs f) eqn:Hb.
+    - (* blockstore, on its own file or on the caller's *)
       assert (Hput : forall l, bs_put_many s l = (s, OErr EClosed) \/ bs_put_many s l = (s, OErr EFinalized)).
       { intros l. unfold bs_put_many. destruct (ws_closed s) eqn:Ec; [left; reflexivity|].
         destruct Hfr as [H|[_ H]]; [congruence|]. rewrite H. right. reflexivity. }
-      assert (Hro : ws_file (fst (bs_finalize_ro s)) = ws_file s /\ frozen FBs (fst (bs_finalize_ro s))).
+      assert (Hro : ws_file (fst (bs_finalize_ro s)) = ws_file s /\ frozen f (fst (bs_finalize_ro s))).
       { unfold bs_finalize_ro. destruct (w_v1 (ws_opts s)).
-        - split; [reflexivity|]. right. split; reflexivity.
+        - split; [reflexivity|]. right. split; [exact Hb|reflexivity].
         - destruct (ws_closed s) eqn:Ec; [split; [reflexivity|exact Hfr]|].
           destruct Hfr as [H|[_ H]]; [congruence|]. rewrite H. split; [reflexivity|]. right. auto. }
-      assert (Hcl : forall s1, frozen FBs s1 -> ws_file (fst (bs_close s1)) = ws_file s1 /\ frozen FBs (fst (bs_close s1))).
+      assert (Hcl : forall s1, frozen f s1 -> ws_file (fst (bs_close s1)) = ws_file s1 /\ frozen f (fst (bs_close s1))).
       { intros s1 H1. unfold bs_close. destruct (negb (w_v1 (ws_opts s1)) && negb (ws_finalized s1)); [auto|].
         destruct (ws_closed s1); [auto|]. split; [reflexivity|]. left. reflexivity. }
-      destruct op as [c d|l|c|c|c| | | | | | ]; cbn [impl_step fst]; try (split; [reflexivity|exact Hfr]).
-      + destruct (Hput [(c, d)]) as [H|H]; rewrite H; split; [reflexivity|exact Hfr|reflexivity|exact Hfr].
-      + destruct (Hput l) as [H|H]; rewrite H; split; [reflexivity|exact Hfr|reflexivity|exact Hfr].
-      + unfold bs_finalize. destruct (bs_finalize_ro s) as [s1 r1] eqn:E1. cbn [fst] in Hro.
+      assert (Hfin : ws_file (fst (bs_finalize s)) = ws_file s /\ frozen f (fst (bs_finalize s))).
+      { unfold bs_finalize. destruct (bs_finalize_ro s) as [s1 r1] eqn:E1. cbn [fst] in Hro.
         destruct Hro as (Hf1 & Hfr1). destruct (Hcl s1 Hfr1) as (Hf2 & Hfr2).
-        destruct (bs_close s1) as [s2 r2]. cbn [fst] in *. split; [congruence|exact Hfr2].
-      + exact Hro.
-      + apply Hcl. exact Hfr.
-      + split; [reflexivity|]. left. reflexivity.
+        destruct (bs_close s1) as [s2 r2]. cbn [fst] in *. split; [congruence|exact Hfr2]. }
+      assert (Hp1 : forall l, ws_file (fst (bs_put_many s l)) = ws_file s /\ frozen f (fst (bs_put_many s l))).
+      { intros l. destruct (Hput l) as [H|H]; rewrite H; split; try reflexivity; exact Hfr. }
+      destruct f as [|r|]; [|discriminate Hb|];
+        (destruct op as [c d|l|c|c|c| | | | | | ]; cbn [impl_step fst]; try (split; [reflexivity|exact Hfr]);
+         [apply Hp1|apply Hp1|exact Hfin|exact Hro|apply Hcl; exact Hfr|split; [reflexivity|left; reflexivity]]).
     - (* storage: frozen = closed *)
-      assert (Hc : ws_closed s = true) by (destruct Hfr as [H|[H _]]; [exact H|discriminate]).
+      assert (Hc : ws_closed s = true) by (destruct Hfr as [H|[H _]]; [exact H|congruence]).
+      destruct f as [|r|]; try discriminate Hb.
       destruct op as [c d|l|c|c|c| | | | | | ]; cbn [impl_step fst]; try (split; [reflexivity|exact Hfr]).
       + unfold st_put. destruct (cid_parse c); [rewrite Hc|]; split; try reflexivity; exact Hfr.
       + unfold st_finalize. rewrite Hc. destruct (ws_finalized s); (split; [reflexivity|]); [left; reflexivity|exact Hfr].
@@ -166,7 +177,7 @@ Proof.
   assert (Hflags : forall (x : mstate * out), m_blocks (fst x) = m_blocks m ->
             incl (m_blocks (fst x)) (m_blocks m ++ puts_of [op])).
   { intros x ->. apply incl_appl, incl_refl. }
-  destruct f as [|r]; destruct op as [c d|l|c|c|c| | | | | | ]; cbn [spec_step];
+  destruct f as [|r|]; destruct op as [c d|l|c|c|c| | | | | | ]; cbn [spec_step];
     try (apply Hflags; reflexivity).
   - cbn [puts_of flat_map app]. apply Hput.
   - cbn [puts_of flat_map app]. rewrite app_nil_r. apply Hput.
@@ -184,6 +195,16 @@ Proof.
     pose proof (m_put_one_blocks o m c d p) as H. destruct (m_put_one o m c d p) as [m1 r1]. cbn [fst].
     destruct H as ([-> | ->] & _); [apply incl_appl, incl_refl|apply incl_refl].
   - apply Hflags. unfold m_st_finalize.
+    repeat match goal with |- context [if ?b then _ else _] => destruct b end; reflexivity.
+  - cbn [puts_of flat_map app]. apply Hput.
+  - cbn [puts_of flat_map app]. rewrite app_nil_r. apply Hput.
+  - apply Hflags. unfold m_bs_finalize, m_bs_finalize_ro, m_bs_close.
+    destruct (w_v1 o); [|destruct (m_closed m); [|destruct (m_finalized m)]];
+      cbn [m_set_flags m_blocks m_closed m_finalized negb andb];
+      repeat match goal with |- context [if ?b then _ else _] => destruct b end; reflexivity.
+  - apply Hflags. unfold m_bs_finalize_ro.
+    repeat match goal with |- context [if ?b then _ else _] => destruct b end; reflexivity.
+  - apply Hflags. unfold m_bs_close.
     repeat match goal with |- context [if ?b then _ else _] => destruct b end; reflexivity.
 Qed.
 
@@ -208,7 +229,7 @@ Qed.
 (* put then get on the map: the block comes back with its bytes, provided the blocks already stored
    under the same key carry the same bytes (content addressing) and an identity CID carries its data *)
 Lemma m_put_then_get f o roots m c d p m' :
-  f = FBs \/ f = FSt true -> cid_parse c = Some p ->
+  f = FBs \/ f = FSt true \/ f = FBf -> cid_parse c = Some p ->
   spec_step f o roots m (OpPut c d) = (m', ONil) ->
   (is_identity p = true -> d = c_digest p) ->
   (forall b, In b (m_blocks m) -> same_key (w_whole o) (fst b) c = true -> snd b = d) ->
@@ -216,15 +237,18 @@ Lemma m_put_then_get f o roots m c d p m' :
 Proof.
   intros Hf Hp Hput Hid Hcons.
   assert (Hone : exists m1, m_put_one o m c d p = (m1, ONil) /\ m' = m1 /\ m_closed m = false).
-  { destruct Hf as [-> | ->]; cbn [spec_step] in Hput.
+  { destruct Hf as [-> | [-> | ->]]; cbn [spec_step] in Hput.
     - unfold m_put_many in Hput. destruct (m_closed m); [discriminate|]. destruct (m_finalized m); [discriminate|].
       cbn [m_put_loop] in Hput. rewrite Hp in Hput. destruct (m_put_one o m c d p) as [m1 r1].
       destruct r1; try discriminate. exists m1. inversion Hput. auto.
     - unfold m_st_put in Hput. rewrite Hp in Hput. destruct (m_closed m); [discriminate|].
       destruct (m_finalized m); [discriminate|].
-      destruct (m_put_one o m c d p) as [m1 r1]. inversion Hput; subst. exists m'. auto. }
+      destruct (m_put_one o m c d p) as [m1 r1]. inversion Hput; subst. exists m'. auto.
+    - unfold m_put_many in Hput. destruct (m_closed m); [discriminate|]. destruct (m_finalized m); [discriminate|].
+      cbn [m_put_loop] in Hput. rewrite Hp in Hput. destruct (m_put_one o m c d p) as [m1 r1].
+      destruct r1; try discriminate. exists m1. inversion Hput. auto. }
   destruct Hone as (m1 & Hone & -> & Hcl).
-  assert (Hget : snd (spec_step f o roots m1 (OpGet c)) = m_get o m1 c) by (destruct Hf as [-> | ->]; reflexivity).
+  assert (Hget : snd (spec_step f o roots m1 (OpGet c)) = m_get o m1 c) by (destruct Hf as [-> | [-> | ->]]; reflexivity).
   rewrite Hget. unfold m_get. rewrite Hp.
   pose proof (m_put_one_blocks o m c d p) as Hb. rewrite Hone in Hb. destruct Hb as (Hb & Hc1 & _).
   unfold m_put_one in Hone.
@@ -251,19 +275,22 @@ Qed.
 (* a put that answers nil and leaves the map as it was is an identity CID that is not stored, or its
    key was already present *)
 Lemma m_skip_only_if_present f o roots m c d p m' :
-  f = FBs \/ (exists r, f = FSt r) -> cid_parse c = Some p ->
+  cid_parse c = Some p ->
   spec_step f o roots m (OpPut c d) = (m', ONil) ->
   (m_blocks m' = m_blocks m /\ (negb (w_storeid o) && is_identity p = true \/ m_present o (m_blocks m) c = true)) \/
   m_blocks m' = m_blocks m ++ [(c, d)].
 Proof.
-  intros Hf Hp Hput.
+  intros Hp Hput.
   assert (Hone : m_put_one o m c d p = (m', ONil)).
-  { destruct Hf as [-> | (r & ->)]; cbn [spec_step] in Hput.
+  { destruct f as [|r|]; cbn [spec_step] in Hput.
     - unfold m_put_many in Hput. destruct (m_closed m); [discriminate|]. destruct (m_finalized m); [discriminate|].
       cbn [m_put_loop] in Hput. rewrite Hp in Hput. destruct (m_put_one o m c d p) as [m1 r1].
       destruct r1; try discriminate. exact Hput.
     - unfold m_st_put in Hput. rewrite Hp in Hput. destruct (m_closed m); [discriminate|].
-      destruct (m_finalized m); [discriminate|]. exact Hput. }
+      destruct (m_finalized m); [discriminate|]. exact Hput.
+    - unfold m_put_many in Hput. destruct (m_closed m); [discriminate|]. destruct (m_finalized m); [discriminate|].
+      cbn [m_put_loop] in Hput. rewrite Hp in Hput. destruct (m_put_one o m c d p) as [m1 r1].
+      destruct r1; try discriminate. exact Hput. }
   unfold m_put_one in Hone.
   destruct (negb (w_storeid o) && is_identity p); [inversion Hone; subst; left; auto|].
   destruct (w_maxcid o <? blen c); [discriminate|].
@@ -335,7 +362,7 @@ Section Cor.
 
   (* put then get *)
   Theorem put_then_get f ops c d p :
-    f = FBs \/ f = FSt true -> cid_parse c = Some p ->
+    f = FBs \/ f = FSt true \/ f = FBf -> cid_parse c = Some p ->
     hist_ok o nilroots roots (ops ++ [OpPut c d]) ->
     (is_identity p = true -> d = c_digest p) ->
     (forall b, In b (puts_of ops) -> same_key (w_whole o) (fst b) c = true -> snd b = d) ->
@@ -376,8 +403,7 @@ Section Cor.
     intros Hp Hh s1 Hput.
     destruct (step_after f ops (OpPut c d) Hh) as (s' & m' & r & H1 & H2 & Ha & Ha').
     rewrite Hput in H1. inversion H1; subst s' r.
-    assert (Hf : f = FBs \/ (exists r, f = FSt r)) by (destruct f; [left; reflexivity|right; eexists; reflexivity]).
-    pose proof (m_skip_only_if_present f o roots _ c d p m' Hf Hp H2) as Hs.
+    pose proof (m_skip_only_if_present f o roots _ c d p m' Hp H2) as Hs.
     assert (E1 : stored_of s1 = m_blocks m') by (rewrite <- Ha'; reflexivity).
     assert (E0 : stored_of (after f ops) = m_blocks (m_after f ops)) by (rewrite <- Ha; reflexivity).
     rewrite E1, E0. exact Hs.
